@@ -523,6 +523,14 @@ def generators_mismatch(f):
     return (len(bad) > 0), bad[:4]
 
 
+def zeroize_dirty(f):
+    """C20: on the real crates, with secrets made of marker bytes, a heap block is released while still holding them"""
+    o = run_replay(f.cfg, 1)
+    if 'crash' in o:
+        return None, o
+    return (o.get('dirty_blocks', 0) > 0), o
+
+
 def relation_disagrees(f):
     """C02: the library's verdict differs from the independent unoptimised evaluation of the relation
     (replay crate, refimpl.rs) on an honest proof or on a perturbed proof of the same configuration"""
